@@ -14,9 +14,14 @@ The theorems are split over the files of `Props/C16/` (all in namespace `MysticV
   Stats   - with_spread / with_variance / with_std: exact target, mean kept, degenerate inputs, idempotent
   Select  - sorting / monotonic under an index selection (the selected subsequence), bounded(clip=True, nearest=False)
             lands on an interval end, bounded(clip=False) lands inside for every draw oracle
+  Track   - impose_as with an offset: a round of the offset loop adds the offset ONCE to every entry that any number of
+            pairs name as their tracker (`set(trac)`), frame of a round, one round when no tracker is a partner; several
+            partners of one tracker (partners / pairs repeated): pair clause for every pair, frame, conforming input left
+            alone, idempotent; the docstring's examples and the closed-term witnesses of the offset defects
 -/
 import MysticVerif.Props.C16.Core
 import MysticVerif.Props.C16.Insert
 import MysticVerif.Props.C16.Ties
 import MysticVerif.Props.C16.Stats
 import MysticVerif.Props.C16.Select
+import MysticVerif.Props.C16.Track
